@@ -509,6 +509,12 @@ func checkAncestry(c *Ctx, fn *ssa.Function) {
 			c.Check(reach(isCallNamed("repository.RepoData.UpdateRef")), "R2.4", key, pos, "local head found among the remote commits ⇒ fast-forward", "'local head is among the remote commits' does not lead to the fast-forward UpdateRef")
 		}
 	}
+	checkRelatedHistories(c, fn, func(v ssa.Value) string {
+		if lc := hasOriginCall(v, "repository.RepoData.ListCommits", 0); lc != nil {
+			return sideOfCall(lc)
+		}
+		return ""
+	})
 	if !seenLocalList {
 		c.Violate("R2.4", fname+":expected:remote-head-in-local-commits", w.FnPos(fn), "no test of the remote head against the local commit list found (scenario 3)")
 	}
@@ -683,4 +689,207 @@ func blockOrDomStoresField(b *ssa.BasicBlock, field string) bool {
 		}
 	}
 	return false
+}
+
+// R9.6: in identity.MergeAll the verdict about an identity that exists on both sides is
+// (*Identity).Merge's and nobody else's.
+func checkIdentityMergeAllVerdict(c *Ctx) {
+	w := c.W
+	c.Doc("R9.6", "identity.MergeAll reports Nothing / Updated for an identity that exists locally only after (*Identity).Merge succeeded, Updated on its true result and Nothing on its false result: no shortcut decides without the version-by-version comparison (a diverged identity must be refused)")
+	var body *ssa.Function
+	for _, fn := range w.ModFns {
+		if fnPkgPath(fn) == modPath+"/entities/identity" && fn.Parent() != nil && fn.Parent().Name() == "MergeAll" {
+			if len(CallsNamed(fn, "entities/identity.Identity.Merge")) > 0 || len(CallsNamed(fn, "entity.NewMergeNothingStatus")) > 0 {
+				body = fn
+			}
+		}
+	}
+	if body == nil {
+		c.Undecided("R9.6", "anchor:identity.MergeAll", "entities/identity", "goroutine body not found")
+		return
+	}
+	c.seeFn(funcName(body))
+	var mergeCall *ssa.Call
+	for _, cl := range CallsNamed(body, "entities/identity.Identity.Merge") {
+		mergeCall, _ = cl.Instr.(*ssa.Call)
+	}
+	if mergeCall == nil {
+		c.Violate("R9.6", "identity.MergeAll:verdict-by-Merge", w.FnPos(body), "identity.MergeAll does not call (*Identity).Merge: nothing compares the two histories")
+		return
+	}
+	var updated ssa.Value
+	for _, v := range resultValues(mergeCall, 0) {
+		updated = v
+	}
+	n := 0
+	for _, cl := range Calls(body) {
+		want := -1
+		switch cl.Name {
+		case "entity.NewMergeNothingStatus":
+			want = 1 // false edge of 'updated'
+		case "entity.NewMergeUpdatedStatus":
+			want = 0
+		default:
+			continue
+		}
+		n++
+		c.Sites++
+		kind := strings.TrimSuffix(strings.TrimPrefix(cl.Name, "entity.NewMerge"), "Status")
+		okDom := dominatedBySuccess(mergeCall, cl.Instr)
+		okEdge := false
+		for _, cc := range controlConds(cl.Block(), nil) {
+			cond, edge := cc.If.Cond, cc.Edge
+			for {
+				if u, isU := cond.(*ssa.UnOp); isU && u.Op == token.NOT {
+					cond, edge = u.X, 1-edge
+					continue
+				}
+				break
+			}
+			if cond == updated && edge == want {
+				okEdge = true
+			}
+		}
+		c.Check(okDom && okEdge, "R9.6", fmt.Sprintf("identity.MergeAll:%s#%d:verdict-by-Merge", kind, n), w.InstrPos(cl.Instr),
+			kind+" is reported on Merge's verdict",
+			kind+" is reported for a local identity without (*Identity).Merge having compared the histories (or against its result): a diverged or extended remote identity is passed over silently")
+	}
+	if n < 2 {
+		c.Violate("R9.6", "expected:identity-merge-reports", w.FnPos(body), fmt.Sprintf("%d Nothing/Updated reports found in identity.MergeAll (reference 2)", n))
+	}
+}
+
+// checkRelatedHistories (R2.7): a merge commit (operationPack.Write with two parents) is written
+// only when a commit common to the local and the remote history was found; otherwise the merge
+// commit would join two roots and the ref would be moved to a history read refuses.
+func checkRelatedHistories(c *Ctx, fn *ssa.Function, listSide func(ssa.Value) string) {
+	w := c.W
+	c.Doc("R2.7", "dag.merge writes a merge commit only under the true outcome of a test that a commit of the remote commit list is also in the local commit list (comma-ok look-up in a set filled from the other list, or equality of elements of the two lists): unrelated histories that merely share the first operation (same id) are refused instead of being joined into a two-root history that cannot be read back")
+	fname := funcName(fn)
+	var mw *ssa.Call
+	for _, cl := range CallsNamed(fn, "entity/dag.operationPack.Write") {
+		cv, _ := cl.Instr.(*ssa.Call)
+		if cv == nil {
+			continue
+		}
+		args := cv.Common().Args
+		if len(args) > 0 && len(variadicOperands(args[len(args)-1])) >= 2 {
+			mw = cv
+		}
+	}
+	if mw == nil {
+		return
+	}
+	c.Sites++
+	// evidence edges
+	isEvidence := func(iff *ssa.If, edge int) bool {
+		cond := iff.Cond
+		for {
+			if u, isU := cond.(*ssa.UnOp); isU && u.Op == token.NOT {
+				cond, edge = u.X, 1-edge
+				continue
+			}
+			break
+		}
+		if edge != 0 {
+			return false
+		}
+		switch x := cond.(type) {
+		case *ssa.Extract:
+			lk, isLk := x.Tuple.(*ssa.Lookup)
+			if !isLk || !lk.CommaOk || x.Index != 1 {
+				return false
+			}
+			s1 := listSide(lk.Index)
+			if s1 == "" || s1 == "?" {
+				return false
+			}
+			// keys put into the map come from the other list
+			for _, b := range fn.Blocks {
+				for _, ins := range b.Instrs {
+					if mu, isMU := ins.(*ssa.MapUpdate); isMU && sameMap(mu.Map, lk.X) {
+						if s2 := listSide(mu.Key); s2 != "" && s2 != "?" && s2 != s1 {
+							return true
+						}
+					}
+				}
+			}
+		case *ssa.BinOp:
+			if x.Op != token.EQL {
+				return false
+			}
+			s1, s2 := listSide(x.X), listSide(x.Y)
+			return s1 != "" && s2 != "" && s1 != "?" && s2 != "?" && s1 != s2
+		}
+		return false
+	}
+	var establishes func(v ssa.Value, seen map[ssa.Value]bool) bool // v is true only where evidence was found
+	establishes = func(v ssa.Value, seen map[ssa.Value]bool) bool {
+		if seen[v] {
+			return true
+		}
+		seen[v] = true
+		switch x := v.(type) {
+		case *ssa.Const:
+			return x.Value != nil && x.Value.String() == "false"
+		case *ssa.Phi:
+			for i, e := range x.Edges {
+				if k, isK := e.(*ssa.Const); isK && k.Value != nil && k.Value.String() == "true" {
+					pred := x.Block().Preds[i]
+					ok := false
+					for _, cc := range controlConds(pred, nil) {
+						if isEvidence(cc.If, cc.Edge) {
+							ok = true
+						}
+					}
+					// the edge itself may be the evidence edge (pred ends in the If)
+					if iff, isIf := pred.Instrs[len(pred.Instrs)-1].(*ssa.If); isIf {
+						for si, sb := range pred.Succs {
+							if sb == x.Block() && isEvidence(iff, si) {
+								ok = true
+							}
+						}
+					}
+					if !ok {
+						return false
+					}
+					continue
+				}
+				if !establishes(e, seen) {
+					return false
+				}
+			}
+			return true
+		}
+		return false
+	}
+	guarded := false
+	for _, cc := range controlConds(mw.Block(), nil) {
+		if isEvidence(cc.If, cc.Edge) {
+			guarded = true
+			continue
+		}
+		cond, edge := cc.If.Cond, cc.Edge
+		for {
+			if u, isU := cond.(*ssa.UnOp); isU && u.Op == token.NOT {
+				cond, edge = u.X, 1-edge
+				continue
+			}
+			break
+		}
+		if _, isPhi := cond.(*ssa.Phi); isPhi && edge == 0 && establishes(cond, map[ssa.Value]bool{}) {
+			guarded = true
+		}
+	}
+	c.Check(guarded, "R2.7", fname+":merge-commit-joins-related-histories", w.InstrPos(mw), "the merge commit is written only after a common commit of the two histories was found",
+		"a merge commit is written, and the local ref moved to it, without establishing that the local and the remote history share a commit: a remote history with the same first operation (same id, correctly named ref) but its own root is joined into a two-root history — the pull reports a merge error and the local entity can no longer be read")
+}
+
+func sameMap(a, b ssa.Value) bool {
+	if a == b {
+		return true
+	}
+	ua, oka := a.(*ssa.UnOp)
+	ub, okb := b.(*ssa.UnOp)
+	return oka && okb && ua.X == ub.X
 }
